@@ -54,6 +54,16 @@ Theorem C09_pipeline_end_to_end_partial :
 Proof. exact pipeline_results_under_client_addresses. Qed.
 Print Assumptions C09_pipeline_end_to_end_partial.
 
+(* ... and in full: every result is reported under the address the client supplied and carries
+   the result the next hop gave for the address handed on for it, in the order handed on *)
+Theorem C09_pipeline_end_to_end_full_partial :
+  forall rws rcpts fails,
+    levels_nodup rws rcpts ->
+    pipe_e2e rws rcpts fails =
+    combine (pipe_want rws rcpts) (map (fun e => negb (mem_b str_eqb e fails)) (pipe_handed rws rcpts)).
+Proof. exact pipeline_results_full. Qed.
+Print Assumptions C09_pipeline_end_to_end_full_partial.
+
 (* non-vacuity: a forwarding chain whose middle address the client also names (alice -> bob,
    bob -> carol; RCPT alice, RCPT bob): nothing is handed on twice, bob's result goes to alice and
    carol's to bob; and the same with the second rewrite done by a nested pipeline *)
